@@ -159,6 +159,15 @@ impl<'a> G<'a> {
         readable.extend(globals.iter().cloned());
         let mut assigned_locals: Vec<Name> = Vec::new();
         let mut out = Vec::new();
+        if self.rng.chance(1, 6) {
+            // a pronoun before the body names anything: the variable the caller named last
+            let it = Expr::Prim(Prim::Ident(Ident::Pronoun));
+            out.push(match self.rng.below(3) {
+                0 => say(it),
+                1 => say(bin(BinOp::Plus, it, num(1.0))),
+                _ => Stmt::If { cond: bin(BinOp::Eq, it, Expr::Prim(Prim::Lit(Lit::Null))), then: vec![say(strlit("nothing"))], els: None },
+            });
+        }
         let n = self.rng.range(1, 6);
         for _ in 0..n {
             let mut rd = readable.clone();
@@ -221,7 +230,15 @@ impl<'a> G<'a> {
                     if let Some(l) = locals.last().cloned() {
                         if !assigned_locals.iter().any(|x| x.key() == l.key()) {
                             let m = self.mark();
-                            out.push(Stmt::If { cond: Expr::Prim(Prim::Lit(Lit::Bool(true))), then: vec![put(num(m), &l), say(var(&l))], els: None });
+                            if self.rng.coin() {
+                                out.push(Stmt::If { cond: Expr::Prim(Prim::Lit(Lit::Bool(true))), then: vec![put(num(m), &l), say(var(&l))], els: None });
+                            } else {
+                                // in the else block of an if inside a loop (an if/else directly in a function body
+                                // would have to be its last statement)
+                                let m2 = self.mark();
+                                let inner = Stmt::If { cond: Expr::Prim(Prim::Lit(Lit::Bool(false))), then: vec![say(num(m2))], els: Some(vec![put(num(m), &l), say(var(&l))]) };
+                                out.push(Stmt::While { cond: Expr::Prim(Prim::Lit(Lit::Bool(true))), body: vec![inner, Stmt::Break] });
+                            }
                         }
                     }
                 }
@@ -348,8 +365,13 @@ pub fn program(rng: &mut Rng) -> (Program, &'static str) {
                 let m = g.mark();
                 let t = g.rng.pick(&globals).clone();
                 let body = vec![put(num(m), &l), say(var(&l)), put(var(&l), &t)];
-                if g.rng.coin() {
+                let k = g.rng.below(3);
+                if k == 0 {
                     top.push(Stmt::If { cond: Expr::Prim(Prim::Lit(Lit::Bool(true))), then: body, els: None });
+                } else if k == 1 {
+                    // the local lives in the ELSE block
+                    let m2 = g.mark();
+                    top.push(Stmt::If { cond: Expr::Prim(Prim::Lit(Lit::Bool(false))), then: vec![say(num(m2))], els: Some(body) });
                 } else {
                     top.push(Stmt::Until { cond: bin(BinOp::Eq, var(&t), num(m)), body });
                 }
@@ -430,7 +452,15 @@ pub fn program(rng: &mut Rng) -> (Program, &'static str) {
         }
         4 => {
             let t = g.rng.pick(&globals).clone();
-            top.push(Stmt::If { cond: Expr::Prim(Prim::Lit(Lit::Bool(true))), then: vec![say(var(&t))], els: None });
+            match g.rng.below(3) {
+                0 => top.push(Stmt::If { cond: Expr::Prim(Prim::Lit(Lit::Bool(true))), then: vec![say(var(&t))], els: None }),
+                1 => top.push(Stmt::If { cond: Expr::Prim(Prim::Lit(Lit::Bool(false))), then: vec![say(num(0.0))], els: Some(vec![say(var(&t))]) }),
+                _ => {
+                    // an if whose branch is not taken is a block that has ended, too
+                    top.push(say(var(&t)));
+                    top.push(Stmt::If { cond: Expr::Prim(Prim::Lit(Lit::Bool(false))), then: vec![say(num(0.0))], els: None });
+                }
+            }
             top.push(say(Expr::Prim(Prim::Ident(Ident::Pronoun))));
             "pronoun_probe_after_block"
         }
